@@ -1,3 +1,5 @@
+//go:build verif_c09
+
 package main
 
 // C09 — formula evaluation is total, terminating, deterministic and side-effect free.
